@@ -13,7 +13,7 @@ from vf.worker import exc_sig
 
 LEVEL = "exploration"
 RULE = ("generated flat models with unary and n-ary operators, 1- to 4-argument function calls, Boolean literals as start/value, der, integer/real/"
-        "string literals, sub-component (dotted) names and variables of each variability with literal start/value "
+        "string literals, sub-component (dotted) names, a user function whose formals are named like model variables, and variables of each variability with literal start/value "
         "attributes; distinct = digest of model text; non-trivial = >=2 equations containing both a unary/1-argument "
         "and an n-ary node")
 ASSUMPTIONS = ["the flat model is what tree.flatten returns for a fresh parse of the same text",
